@@ -4,5 +4,8 @@ KM == {"NumericString", "PrintableString", "VisibleString", "IA5String", "BMPStr
 KMquick == {"NumericString", "IA5String", "BMPString"}
 Other == {"UTF8String", "TeletexString", "GeneralString", "GraphicString"}
 OtherQuick == Other   \* every type that is not known-multiplier, in both tiers: "no alphabet annotation" is decided per type
+\* the long-strings slice: strings of up to three characters under the types whose character tables have gaps in code point order
+KMgap == {"PrintableString", "NumericString"}
+NoOther == {}
 Emit == Done => PrintT(<<"CASE", ToJson([os |-> os, ps |-> ps, ty |-> ty, sizepos |-> sizepos, pos |-> pos])>>)
 =============================================================================
